@@ -1435,6 +1435,10 @@ def _getattr(I, args, kwargs):
         if e.name == "AttributeError" and len(args) > 2:
             return args[2]
         raise
+    except OutOfReach as e:
+        if len(args) > 2 and "has no model of attribute" in str(e):
+            return args[2]
+        raise
 
 
 @_native("range")
